@@ -592,6 +592,7 @@ def rule_breakers(draw):
     text = printer.to_text(program)
     kind = draw(st.sampled_from(
         ['break', 'break', 'return', 'assign-macro', 'redefine-macro',
+         'redefine-routine',
          'undefined-name',
          'nested-routine', 'missing-end', 'unbalanced', 'bad-pattern',
          'undefined-call']))
@@ -618,6 +619,10 @@ def rule_breakers(draw):
     # that does not make the macro assignable afterwards
     between = draw(st.sampled_from([
         '', '', 'define qq_r with QQ begin wait end',
+        # at top level these are themselves assignments to the macro
+        'repeat with QQ from 5 to 7 begin wait end',
+        'repeat all as QQ begin wait end',
+        'repeat 2 with QQ cycle begin wait end',
         'define qq_r with a QQ begin assign QQ 1 end',
         'define qq_r begin repeat with QQ from 1 to 2 begin wait end end',
         'define qq_r begin repeat all as QQ begin wait end end',
@@ -629,9 +634,20 @@ def rule_breakers(draw):
         return ('define QQ 5\n' + text + '\n' + between + '\ndefine QQ ' +
                 draw(st.sampled_from(['6', '"s"', '5'])),
                 'macro defined twice')
+    if kind == 'redefine-routine':
+        # a routine cannot be defined twice, whatever was done to its name
+        # in between
+        return (text + '\ndefine qq_r begin wait end\n' + draw(
+            st.sampled_from(['', 'assign qq_r 0', 'qq_r',
+                             'repeat with qq_r from 1 to 2 wait'])) +
+            '\ndefine qq_r with a begin wait end', 'routine defined twice')
     if kind == 'undefined-name':
         use = draw(st.sampled_from(
-            ['hue qq_undefined', 'assign v { 1 + qq_undefined }',
+            ['hue qq_undefined',
+             # a loop variable has no value yet in its own header
+             'repeat with qq_undefined from 1 to qq_undefined wait',
+             'repeat 3 with qq_undefined from qq_undefined to 9 wait',
+             'repeat 3 with qq_undefined cycle qq_undefined wait', 'assign v { 1 + qq_undefined }',
              'set qq_undefined', 'print qq_undefined',
              'repeat qq_undefined begin wait end',
              'define m2 qq_undefined']))
